@@ -81,4 +81,28 @@ def check(ctx: Ctx) -> str:
         ctx.check(f"_min_or_max(environment, value, {want}, case_sensitive, attribute)" in ast.unparse(fi.node), f"{fname}", f"filters:{fname}", "aggregate function", f"{fname} must aggregate with builtin {want}", fi.loc())
     rv = repo.func("filters:do_reverse")
     ctx.check("value[::-1]" in ast.unparse(rv.node) and "reversed(value)" in ast.unparse(rv.node), "reverse", "filters:do_reverse", "reverse", "reverse must reverse strings by slicing and iterables with reversed()", rv.loc())
+    fresh_list_rule(ctx, "R8")
     return __doc__ or ""
+
+
+def fresh_list_rule(ctx: Ctx, rid: str) -> None:
+    """The async twins materialise their input with auto_to_list where the sync forms call
+    list(...): both must hand out a *new* list - returning the argument makes `x|list`
+    an alias of the caller's list in async mode only (a later append shows up in the data,
+    and in every concurrent render sharing it)."""
+    ctx.use("async_utils", "filters")
+    repo = ctx.repo
+    ctx.rule(rid, "materialising helpers return a fresh list on every path: auto_to_list's returns are list displays / comprehensions / list(...) calls, never its argument; the sync list filter is list(value)")
+    al = repo.func("async_utils:auto_to_list")
+    rets = astq.returns(al.node)
+    ctx.floor("returns in auto_to_list", len(rets), 1)
+    params = set(al.params())
+    for r in rets:
+        v = r.value
+        fresh = isinstance(v, (ast.ListComp, ast.List)) or (isinstance(v, ast.Call) and astq.callee(v) in ("list", "sorted"))
+        alias = v is not None and any(isinstance(n_, ast.Name) and n_.id in params for n_ in [v])
+        ctx.check(fresh and not alias, f"auto_to_list:return:{ast.unparse(v)[:30] if v is not None else None}", "async_utils:auto_to_list", f"returns `{ast.unparse(v)[:40] if v is not None else None}`",
+                  f"auto_to_list returns `{ast.unparse(v) if v is not None else None}`, which is (or may be) the caller's own object instead of a new list: in async mode `items|list` then aliases `items`, so `{{% set w = items|list %}}{{% set _ = w.append(x) %}}` modifies the render data while the sync filter copies", al.loc(r))
+    dl = repo.func("filters:sync_do_list")
+    rl = astq.returns(dl.node)
+    ctx.check(len(rl) == 1 and ast.unparse(rl[0].value) == "list(value)", "sync_do_list:copy", "filters:sync_do_list", "list filter copies", "the list filter must return list(value)", dl.loc())
